@@ -6,7 +6,7 @@
    encoded block is shorter than 2^32 bytes (offsets are uint32 in the format), every comparer
    satisfying the contract. *)
 From GL Require Import Base.Order Base.Varint Base.VarintProofs Base.Cursor Base.CursorProofs
-  Codec.BytesCmp Codec.BytesCmpProofs Codec.Block Codec.BlockEnc Codec.BlockProofs
+  Codec.BytesCmp Codec.BytesCmpProofs Codec.Block Codec.BlockEnc Codec.BlockProofs Codec.BlockSliceProofs
   Codec.Table Codec.TableProofs Codec.TableIterProofs Codec.TableDamageProofs
   Codec.TableCheck Codec.TableCheckProofs Codec.TableWriteProofs Codec.TblCrc Gen.ConstsOkTbl.
 
@@ -211,6 +211,19 @@ Print Assumptions C13_table_roundtrip_partial.
 Theorem C13_table_constants_ok : tparams_ok tblp.
 Proof. exact tblp_ok. Qed.
 Print Assumptions C13_table_constants_ok.
+
+(* A.4  the same for the SLICED block iterator newBlockIter(b, &util.Range{start, limit}, false):
+   it refines the cursor over the pairs with start <= key < limit (each bound optional), for
+   every non-empty block.  (On an EMPTY block a slice with a Start bound makes block.seek read
+   the restart-count word as an entry offset and the iterator reports a spurious corruption
+   error without returning any pair; the model reproduces this, the theorem excludes it.) *)
+Theorem C13_block_iter_sliced_refines_cursor : forall c ri kvs start limit,
+  comparer_ok c -> (1 <= ri)%N -> (lenN (block_build ri kvs) < 2 ^ 32)%N -> sorted c kvs -> kvs <> [] ->
+  exists b, read_block (block_build ri kvs) = Ok b /\
+    forall ops, bi_run c (new_block_iter c b (Some (start, limit)) false) ops
+                = c_run c (restrict c start limit kvs) CSOI ops.
+Proof. exact block_iter_sliced_refines. Qed.
+Print Assumptions C13_block_iter_sliced_refines_cursor.
 
 (* Non-vacuity: the documented example block (restart interval 2) meets the hypotheses, its
    bytes are the documented ones, and a walk with reversals at the restart point behaves. *)
